@@ -67,6 +67,10 @@ func coqRoutes(rs []rroute) string {
 
 var routeLits = []string{"a", "b", "users", "items", "x1", "me"}
 var routeVarsByDepth = []string{"id", "name", "key", "v2"}
+
+// names that are not spelled like the Go variables made of them (user_id -> userId, Key -> key): the routers know the
+// variable under the name of the path template, whatever the wrapper calls its local variable
+var routeVarsSnake = []string{"user_id", "item_name", "Key", "v_2"}
 var routeMethods = []string{"get", "put", "post", "delete", "patch", "options", "head", "trace", "connect"} // all nine methods of a path item
 
 var probeMethods = []string{"get", "put", "post", "delete", "patch"} // methods used for wrong-method probes
@@ -86,6 +90,10 @@ func genRouteSet(rng *rand.Rand) []rroute {
 		}
 	}
 	n := 2 + rng.Intn(3)
+	routeVarsByDepth := routeVarsByDepth
+	if rng.Intn(2) == 0 {
+		routeVarsByDepth = routeVarsSnake
+	}
 	for i := 0; i < n; i++ {
 		depth := 1 + rng.Intn(4)
 		var t []rseg
@@ -638,9 +646,7 @@ func runC03(r *Report, rng *rand.Rand, thorough bool) {
 			if rt != nil {
 				var vals []string
 				for _, v := range rt.vars() {
-					var s string
-					_ = json.Unmarshal(handlers[0].Data[v], &s)
-					vals = append(vals, s)
+					vals = append(vals, pathArg(handlers[0], v))
 				}
 				if m.fw != "" && strings.Contains(id, "_strict") {
 					_ = vals
@@ -762,17 +768,25 @@ func isStrictPkg(l *Lab, name string) bool {
 }
 
 // pathArg reads a path argument from a handler event of a plain or a strict stub.
+// normVarName: the spelling shared by a path variable and the Go identifiers made of it (user_id, userId, UserId).
+func normVarName(v string) string {
+	return strings.ToLower(strings.NewReplacer("_", "", "-", "").Replace(v))
+}
+
+// pathArg finds the value the handler received in the argument (or request-object field) named after the variable.
 func pathArg(h LabEvent, v string) string {
 	var s string
-	if raw, ok := h.Data[v]; ok {
-		_ = json.Unmarshal(raw, &s)
-		return s
+	for k, raw := range h.Data {
+		if k != "request" && k != "$scopes" && normVarName(k) == normVarName(v) {
+			_ = json.Unmarshal(raw, &s)
+			return s
+		}
 	}
 	if raw, ok := h.Data["request"]; ok {
 		var m map[string]json.RawMessage
 		_ = json.Unmarshal(raw, &m)
 		for k, x := range m {
-			if strings.EqualFold(k, v) {
+			if normVarName(k) == normVarName(v) {
 				_ = json.Unmarshal(x, &s)
 			}
 		}
